@@ -65,6 +65,7 @@ type c15Case struct {
 	Kind     string   `json:"kind"` // recv-ctl recv-data recv-fuzz send-ack send-fuzz legacy-file legacy-manifest dumb dec-extreme hdr-extreme
 	Tag      string   `json:"tag"`
 	Resume   bool     `json:"resume"`
+	Delta    bool     `json:"delta"` // the endpoint runs with a byte-progress callback (as the CLI does): the per-read progress path
 	Items    []c15Item `json:"items"`
 	Header   []byte   `json:"header"`
 	Ctl      []byte   `json:"ctl"`
@@ -366,7 +367,11 @@ func c15RunRecv(c c15Case, w time.Duration) c15Result {
 				done <- r{nil, fmt.Sprint(x)}
 			}
 		}()
-		_, err := transfer.RecvManifestMultiStream(ctx, tconn{b}, outDir, transfer.Options{Resume: c.Resume, NoRootDir: true, HashAlg: "crc32c"})
+		ro := transfer.Options{Resume: c.Resume, NoRootDir: true, HashAlg: "crc32c"}
+		if c.Delta {
+			ro.ProgressDeltaFn = func(string, int64) {}
+		}
+		_, err := transfer.RecvManifestMultiStream(ctx, tconn{b}, outDir, ro)
 		done <- r{err, ""}
 	}()
 	ctl, _ := a.OpenStream(ctx)
@@ -462,7 +467,11 @@ func c15RunSend(c c15Case, w time.Duration) c15Result {
 		if streams < 1 {
 			streams = 1
 		}
-		err := transfer.SendManifestMultiStream(ctx, tconn{a}, c.SrcDir, m, transfer.Options{ChunkSize: 8, ParallelFiles: streams, Resume: c.Resume, ResumeTimeout: 500 * time.Millisecond, HashAlg: "crc32c"})
+		so := transfer.Options{ChunkSize: 8, ParallelFiles: streams, Resume: c.Resume, ResumeTimeout: 500 * time.Millisecond, HashAlg: "crc32c"}
+		if c.Delta {
+			so.ProgressDeltaFn = func(string, int64) {}
+		}
+		err := transfer.SendManifestMultiStream(ctx, tconn{a}, c.SrcDir, m, so)
 		done <- r{err, ""}
 	}()
 	actx, acancel := context.WithTimeout(ctx, w)
@@ -947,6 +956,7 @@ func runC15(cfg config) *hx.Report {
 	var eps []c15Case
 	add := func(c c15Case) int {
 		c.ID = next()
+		c.Delta = c.ID%2 == 1
 		eps = append(eps, c)
 		return c.ID
 	}
